@@ -204,6 +204,7 @@ class OptimizerGeneric:
             for idvar, var in enumerate(self.problem.variables):
                 var.update(x0[idvar])
             self._x.pop(-1)
+            self.problem.update_optics()  # re-apply pickups and solves
 
     def _fun(self, x):
         """
